@@ -103,6 +103,17 @@ def fixed_stream():
            'A B\nCA', '[x]', '#tag', 'k: v', 'a=b', '\\', '"', '\\"', '\\\\', 'A\\', 'a\\u0041', 'a\\n', 'a\\x41', '\\N{DASH}',
            '€5 CAFE', '日本 STORE WA', 'x\x7fy z', 'x\x01y', 'it\'s "the" place']
     out += [m for m in META] + ['A' + m + 'B' for m in META] + ['A ' + m + ' B' for m in META]
+    # needles that a wildcard / glob / LIKE / regex reading of contains() would treat specially: contains() is literal
+    out += ['PAYPAL *[EBAY] GADGETSHOP', 'PAYPAL *EBAY [US]', 'A*[B]', '*[x]', 'a*b[c]d', '[a]*', 'X *[]]', 'A*[!B]', 'A*[B-A]', 'A*[^B]',
+            'US*2K4 [REF]', 'WHAT?*', 'A*B?C', 'A**B', '{a,b}*', 'A%B_C', '100% [OFF]*', 'A\\*[B]', '[[]*', '[]*', '*]x[', 'TST* [A-Z] BAR']
+    W = ['*', '?', '!', '^', '-', '\\', '%', '_', '.', '+']
+    out += [f'A{x}[B]{y}' for x in W for y in W] + [f'[{x}A]{y}Z' for x in W for y in W]
+    # typographic characters (caseless, inside the byte model): a loader or matcher that normalises them breaks the literal
+    TYPO = ['\u2018', '\u2019', '\u201c', '\u201d', '\u201e', '\u201a', '\u00ab', '\u00bb', '\u2039', '\u203a', '\u2032', '\u2033',
+            '\u00b4', '\uff02', '\uff07', '\uff3c', '\u2216', '\u2013', '\u2014', '\u2026', '\uff08', '\uff09', '\uff0a', '\u2217', '\u00d7']
+    out += ['MCDONALD\u2019S F1234 AUSTIN TX', 'SQ *THE \u201cBEST\u201d BAGELS 12345', 'JOE\u2018S \u201cDINER\u201d', '\u201cQUOTED\u201d',
+            'A \u201c B', 'O\u2019NEIL\u2019S PUB #12', 'caf\u00e9'.upper().replace('\u00c9', '\u2019E'), '\u00abLE BISTRO\u00bb PARIS FR']
+    out += [t for t in TYPO] + ['A' + t + 'B' for t in TYPO] + ['X ' + t + 'Y' + t + ' Z' for t in TYPO]
     out += [p + 'Cafe Nero' for p in PREFIXES] + ['Cafe Nero' + s for s in SUFFIXES] + ['Cafe' + s + ' Nero' for s in SUFFIXES]
     return out
 
@@ -313,6 +324,8 @@ merchants_file: config/merchants.rules
 BASE_RULES = '[Netflix]\nmatch: contains("NETFLIX")\ncategory: Fun\nsubcategory: Streaming\n'
 
 CLI_BUDGETS = [
+    ['PAYPAL *[EBAY] GADGETSHOP', 'A*[B]', 'WHAT?* [X]', '100% [OFF]*', 'MCDONALD\u2019S F1234 AUSTIN TX', 'SQ *THE \u201cBEST\u201d BAGELS 12345',
+     '\u00abLE BISTRO\u00bb PARIS FR', 'NETFLIX'],                                                    # wildcard-looking and typographic needles
     ['Gießerei', 'Oﬃce Depot', 'ŉgo', 'İstanbul Kebap', 'ılık', 'Miſter \u212a', 'ß', 'NETFLIX'],       # case mapping changes length / is no involution
     ['NETFLIX', 'COSTCO', 'Shell', 'TARGET 12345 SEATTLE WA', 'SQ *BAKERY'],                        # single plain words only
     ['STARBUCKS STORE 12345 SEATTLE WA', 'Acme Foo', 'UBER EATS', 'TST* PIZZA PLACE', 'NETFLIX'],     # all multi-word
